@@ -334,23 +334,38 @@ Section Methods.
 
   Definition m_eq_self : P (res bool) := locked MEq (Ret (Ok true)).
 
-  (* _get_flattened_ll()[1:]  -- walk from the anchor until the anchor comes back *)
-  Fixpoint walk_ll (fuel : nat) (link : addr) (acc : list (K * V)) : P (res (list (K * V))) :=
+  (* _get_flattened_ll(): walk from the anchor, collecting (link[KEY], link[VALUE]) of every link
+     -- the anchor's own pair first -- until the anchor comes back *)
+  Fixpoint walk_ll (fuel : nat) (link : addr) (acc : list (fval * fval)) : P (res (list (fval * fval))) :=
     match fuel with
     | 0 => Ret (Raise hang)
     | S fuel' =>
         rd link KEY (fun k =>
         rd link VALUE (fun v =>
-        let acc' := match k, v with FKey k, FVal v => acc ++ [(k, v)] | _, _ => acc end in
         rd_addr link NEXT (fun nxt =>
         anchor_get (fun anc =>
-        if Nat.eqb nxt anc then Ret (Ok acc') else walk_ll fuel' nxt acc'))))
+        if Nat.eqb nxt anc then Ret (Ok (acc ++ [(k, v)])) else walk_ll fuel' nxt (acc ++ [(k, v)])))))
     end.
 
-  (* the copy is a private object: re-inserting <= max_size items oldest first gives
-     the same items in the same order *)
+  (* the pairs re-inserted into the copy must be real keys and values *)
+  Fixpoint real_items (l : list (fval * fval)) : option (list (K * V)) :=
+    match l with
+    | [] => Some []
+    | (FKey k, FVal v) :: r => match real_items r with Some t => Some ((k, v) :: t) | None => None end
+    | _ :: _ => None
+    end.
+
+  (* copy(): `for key, value in self._get_flattened_ll()[1:]: ret[key] = value`.  The copy is a
+     private object: re-inserting <= max_size items oldest first gives the same items in the
+     same order *)
   Definition m_copy : P (res (list (K * V))) :=
-    locked MCopy (anchor_get (fun anc => walk_ll (max_size + 2) anc [])).
+    locked MCopy (
+      anchor_get (fun anc =>
+      bindr (walk_ll (max_size + 2) anc [])
+            (fun l => match real_items (tl l) with
+                      | Some items => Ret (Ok items)
+                      | None => Ret (Raise crash)
+                      end))).
 
   Definition m_len : P (res nat) :=
     locked MLen (Act ADLen (fun n => match n with XNat n => Ret (Ok n) | _ => Ret (Raise crash) end)).
